@@ -47,6 +47,8 @@ def parseOp (pos : Nat) : Sexp → Option (List Op)
   | .list [.atom "drop", o] => do pure [.drop (← o.asNat?)]
   | .list [.atom "sweep"] => some [.sweep]
   | .list [.atom "defclass", _, _] => some []
+  | .list [.atom "qstart", _, _] => some []
+  | .list [.atom "qnext", _] => some []
   | .list [.atom "churn", o, n, c] => do pure (churnOps (← o.asNat?) (← n.asNat?) (← c.asNat?))
   -- a role instance (class 8) is a plain instance for the model; the role-taker inference of `head_of` is not
   -- modelled: these operations only occur in query-free C20 loops, where what they record cannot be observed
